@@ -143,15 +143,25 @@ func runTraffic(res *Result, col *collector, tw *traceWriter, env *c02Env, rng *
 	total := len(sends)
 	if subsetOnly {
 		waitQuiescent(col, env.m, 300*time.Millisecond, 30*time.Second)
-	} else if !obs.waitUntil(60*time.Second, func() bool { return len(obs.arrivals) >= total-sendErrs }) {
-		// something is missing: decide between "still moving" and "lost"
-		if !waitQuiescent(col, env.m, 1500*time.Millisecond, 60*time.Second) {
-			res.inconclusive("%s: mesh did not become quiescent", env.name)
-
-			return
-		}
 	} else {
-		waitQuiescent(col, env.m, 100*time.Millisecond, 20*time.Second) // lets duplicates, if any, show up
+		// wait until everything has arrived, or until the mesh has gone quiet with datagrams missing (then they are lost)
+		deadline := time.Now().Add(120 * time.Second)
+		for {
+			if obs.nArrivals() >= total-sendErrs {
+				waitQuiescent(col, env.m, 100*time.Millisecond, 20*time.Second) // lets duplicates, if any, show up
+
+				break
+			}
+			if lastEventAge(col) > 2*time.Second && (env.m == nil || meshQuiet(env.m)) {
+				break
+			}
+			if time.Now().After(deadline) {
+				res.inconclusive("%s: mesh did not become quiescent", env.name)
+
+				return
+			}
+			time.Sleep(5 * time.Millisecond)
+		}
 	}
 	arrivals, notes := obs.snapshot()
 	exp := map[string]int{}
@@ -444,7 +454,7 @@ func cmdC02(args []string) {
 				res.violate("C02:framer-vector", fmt.Sprintf("framer: frames %v cut as %v: %s", v.Frames, v.Chunks, why), v)
 			}
 			res.count("framer_vectors_direct")
-			if thorough || i%4 == int(*seed)%4 {
+			if (thorough || i%4 == int(*seed)%4) && !res.tooMany() {
 				why, timeout := replayFramerConn(v)
 				if timeout {
 					res.inconclusive("netMessageConn replay timed out on %v/%v", v.Frames, v.Chunks)
@@ -466,6 +476,9 @@ func cmdC02(args []string) {
 		per = 40
 	}
 	for i, t := range topos {
+		if res.tooMany() {
+			break
+		}
 		env, err := memnetEnv(t, rng, 5, *seed*100+int64(i))
 		if err != nil {
 			res.inconclusive("%v", err)
@@ -481,6 +494,9 @@ func cmdC02(args []string) {
 	st := &relayStats{}
 	kinds := []string{"tcp", "rechunk-tlc", "rechunk-random"}
 	for _, kind := range kinds {
+		if res.tooMany() {
+			break
+		}
 		var pats []chunkPattern
 		if kind == "rechunk-tlc" {
 			if len(patterns) == 0 {
